@@ -110,4 +110,42 @@ def ofImage (img : LImage) : St :=
     live := [match lookupD img.atoms META with | some b => b.refs | none => []],
     pending := none, deleted := [], failed := [] }
 
+/-! ## storage-level discipline of `ManagedDirectory` (on the C01 storage model) -/
+
+/-- the path may be present in some crash image -/
+def _root_.TantivyModel.Storage.FileSt.mayPresent (st : FileSt) : Bool := st.dur || st.vis || st.churn
+
+/-- what the newest `.managed.json` lists -/
+def visibleManaged (s : Dir) : List Path :=
+  match (s.atom MANAGED).visible with
+  | some b => b.refs
+  | none => []
+
+/-- storage-level discipline of `ManagedDirectory`:
+* R1 `create p` only if the newest `.managed.json` already lists `p`
+     -- mirrors: managed_directory.rs::open_write (register_file_as_managed, then open_write)
+* R2 a new `.managed.json` lists every path that may still be present: a path is dropped from
+     the list only after its unlink is durable
+     -- mirrors: managed_directory.rs::garbage_collect (sync_directory before save_managed_paths)
+* R3 `delete p` only for a path that may be present -/
+def RegOK (s : Dir) : Op → Prop
+  | .create p => p ∈ visibleManaged s
+  | .atomicWrite q b => q = MANAGED → ∀ p, (s.file p).mayPresent = true → p ∈ b.refs
+  | .delete p => (s.file p).mayPresent = true
+  | _ => True
+
+/-- decidable version over the touched paths (what the driver evaluates on a real trace) -/
+def regOK (s : Dir) : Op → Bool
+  | .create p => (visibleManaged s).contains p
+  | .atomicWrite q b => q != MANAGED || s.paths.all (fun p => !(s.file p).mayPresent || b.refs.contains p)
+  | .delete p => (s.file p).mayPresent
+  | _ => true
+
+def RegDisc : Dir → List Op → Prop
+  | _, [] => True
+  | s, op :: t => RegOK s op ∧ RegDisc (s.step op) t
+
+/-- every file that may survive a crash is listed by the newest `.managed.json` -/
+def RInv (s : Dir) : Prop := ∀ p, (s.file p).mayPresent = true → p ∈ visibleManaged s
+
 end TantivyModel.GC
